@@ -374,6 +374,109 @@ theorem step_updVars {σ} (S : Sys σ) {s : Sim σ} {a : Spec σ} (r : Rel s a) 
       rw [Option.getD_some, hrt]
       exact ⟨by grind, rfl⟩
 
+/-! ### a failing solver, scaled parameters -/
+
+/-- what a failing solver changes: nothing when the call raises, else the simulator is failed -/
+def failInstead {σ} (s : Sim σ) (x : Out (Sim σ)) : Out (Sim σ) :=
+  match x.2 with
+  | some e => (s, some e)
+  | none => if s.errors > 0 then (s, none) else ({ s with errors := s.errors + 1 }, none)
+
+def Spec.failInstead {σ} (a : Spec σ) (x : Out (Spec σ)) : Out (Spec σ) :=
+  match x.2 with
+  | some e => (a, some e)
+  | none => if a.failed then (a, none) else ({ a with failed := true }, none)
+
+theorem simulateF_eq {σ} (S : Sys σ) (s : Sim σ) (t : Rat) (n : Option Nat) :
+    simulateF S s t n = failInstead s (simulate S s t n) := by
+  unfold simulateF simulate failInstead
+  by_cases he : s.errors > 0
+  · simp [he]
+  · simp only [he, if_false]
+    cases reached? s.segs with
+    | error e => rfl
+    | ok prior =>
+      simp only [gen_simulateChecksBeforeShift, if_true]
+      by_cases hr : Gen.simulateRefusal.eval t prior = true
+      · simp only [hr, if_true]
+      · simp only [hr]
+        cases integrate S s.pars s.integ (unshift s.shift t) n with
+        | error e => rfl
+        | ok r => rfl
+
+theorem timeCourseF_eq {σ} (S : Sys σ) (s : Sim σ) (pts : List Rat) :
+    timeCourseF S s pts = failInstead s (timeCourse S s pts) := by
+  unfold timeCourseF timeCourse failInstead
+  by_cases he : s.errors > 0
+  · simp [he]
+  · simp only [he, if_false]
+    cases reached? s.segs with
+    | error e => rfl
+    | ok prior =>
+      simp only
+      cases pts.getLast? with
+      | none => rfl
+      | some last =>
+        simp only [gen_timeCourseChecksBeforeShift, if_true]
+        by_cases hr : Gen.timeCourseRefusal.eval last prior = true
+        · simp only [hr, if_true]
+        · simp only [hr]
+          cases integrateTimeCourse S s.pars s.integ
+              ((pts.filter fun t => Gen.timeCourseKeep.eval t prior).map (unshift s.shift)) with
+          | error e => rfl
+          | ok r => rfl
+
+theorem Spec.simulateF_eq {σ} (S : Sys σ) (a : Spec σ) (t : Rat) (n : Option Nat) :
+    Spec.simulateF S a t n = Spec.failInstead a (Spec.simulate S a t n) := by
+  unfold Spec.simulateF Spec.simulate Spec.failInstead
+  by_cases hf : a.failed = true
+  · simp [hf]
+  · simp only [hf, if_false, Bool.false_eq_true]
+    split
+    · rfl
+    · split <;> rfl
+
+theorem Spec.timeCourseF_eq {σ} (S : Sys σ) (a : Spec σ) (pts : List Rat) :
+    Spec.timeCourseF S a pts = Spec.failInstead a (Spec.timeCourse S a pts) := by
+  unfold Spec.timeCourseF Spec.timeCourse Spec.failInstead
+  by_cases hf : a.failed = true
+  · simp [hf]
+  · simp only [hf, if_false, Bool.false_eq_true]
+    cases pts.getLast? with
+    | none => rfl
+    | some last =>
+      simp only
+      split
+      · rfl
+      · split <;> split <;> rfl
+
+theorem failInstead_refines {σ} {s : Sim σ} {a : Spec σ} (r : Rel s a) (x : Out (Sim σ)) (y : Out (Spec σ))
+    (h : x.2 = y.2) :
+    (failInstead s x).2 = (Spec.failInstead a y).2 ∧ Rel (failInstead s x).1 (Spec.failInstead a y).1 := by
+  unfold failInstead Spec.failInstead
+  rw [h]
+  cases y.2 with
+  | some e => exact ⟨rfl, r⟩
+  | none =>
+    simp only
+    by_cases hf : a.failed = true
+    · simp [hf, r.errors_pos hf, r]
+    · simp only [r.errors_zero hf, hf, if_false, Bool.false_eq_true]
+      refine ⟨trivial, ?_⟩
+      exact
+        { pars := r.pars, y0 := r.y0, segs := r.segs, failed := by simp,
+          inv := ⟨r.inv.none_now, r.inv.some_last⟩, shift_le := r.shift_le, shift_none := r.shift_none,
+          shift_eq := r.shift_eq, last_state := r.last_state, sim := r.sim }
+
+theorem step_scalePars {σ} {s : Sim σ} {a : Spec σ} (r : Rel s a) (kvs : Upd) :
+    (scalePars s kvs).2 = (Spec.scalePars a kvs).2 ∧ Rel (scalePars s kvs).1 (Spec.scalePars a kvs).1 := by
+  unfold scalePars Spec.scalePars
+  rw [r.pars]
+  refine ⟨rfl, ?_⟩
+  exact
+    { pars := rfl, y0 := r.y0, segs := r.segs, failed := r.failed,
+      inv := ⟨r.inv.none_now, r.inv.some_last⟩, shift_le := r.shift_le, shift_none := r.shift_none,
+      shift_eq := r.shift_eq, last_state := r.last_state, sim := r.sim }
 /-! ### histories -/
 
 theorem step_refines {σ} (S : Sys σ) {s : Sim σ} {a : Spec σ} (r : Rel s a) (op : Op) :
@@ -385,6 +488,13 @@ theorem step_refines {σ} (S : Sys σ) {s : Sim σ} {a : Spec σ} (r : Rel s a) 
   | updPars kvs => exact step_updPars r kvs
   | updVars ov => exact step_updVars S r ov
   | clear => exact ⟨rfl, step_clear r⟩
+  | simulateF t n =>
+    simp only [step, Spec.step, simulateF_eq, Spec.simulateF_eq]
+    exact failInstead_refines r _ _ (step_simulate S r t n).1
+  | timeCourseF pts =>
+    simp only [step, Spec.step, timeCourseF_eq, Spec.timeCourseF_eq]
+    exact failInstead_refines r _ _ (step_timeCourse S r pts).1
+  | scalePars kvs => exact step_scalePars r kvs
 
 theorem run_refines {σ} (S : Sys σ) : ∀ (ops : List Op) (s : Sim σ) (a : Spec σ),
     Rel s a →
